@@ -30,7 +30,7 @@ fn spec() -> Spec {
             Kind { name: "shared_history", quick: 30_000, thorough: 800_000, serial: false },
             Kind { name: "with_shape", quick: 6_000, thorough: 200_000, serial: false },
         ],
-        rule: "value: non-degenerate robot x stack of depth 1..3 in any order from Tool/Base/Frame (uniform rotations and translations; axial tools/frames for the 5-DOF clauses) x q: forward == base*chain*tool in plain matrices, link poses (tool unchanged, base pre-multiplied, frame last), every answer of every inverse entry point lands on the request through the reference composition, continuation ordering and verbatim J6 hold at the outermost level. delegation: the same stacks over a SpyKinematics: for each of the 8 trait methods exactly one inner call of the same method, pose argument == analytically transformed request, scalar/previous arguments bit-identical, results passed through. shared_history: 2-3 stacks of the same wrapper types but other transforms over ONE shared inner robot object, asked the bit-identical joint vector and requested pose in the order A,B,(C,)A,.. on one thread, each judged by its own reference composition. with_shape: KinematicsWithShape is a base + tool stack with a collision filter on top: the same value clauses (forward, links, every answer maps back, continuation ordering at the outermost level) on synthetic cells whose obstacles sit on IK branches of the request. axes: LinearAxis / Gantry forward == base*translation*inner forward. non-trivial = stack has a rotation != identity; distinct = hash(robot, stack, q, method) Workload additions: exactly-identity / rotation-only / translation-only wrappers and tiny rotations; joints resting at exact zeros; kind shared_history = stacks of the same types but other transforms over ONE shared inner robot; kind with_shape = the value clauses through KinematicsWithShape with obstacles on IK branches of the request. Rounds 7-9: with_shape built by the library's own constructor incl. rotation-only transforms; yaw-only and far-away bases; J6 arguments of many turns; previous = generating vector plus 1e-7..3e-5 rad.",
+        rule: "value: non-degenerate robot x stack of depth 1..3 in any order from Tool/Base/Frame (uniform rotations and translations; axial tools/frames for the 5-DOF clauses) x q: forward == base*chain*tool in plain matrices, link poses (tool unchanged, base pre-multiplied, frame last), every answer of every inverse entry point lands on the request through the reference composition, continuation ordering and verbatim J6 hold at the outermost level. delegation: the same stacks over a SpyKinematics: for each of the 8 trait methods exactly one inner call of the same method, pose argument == analytically transformed request, scalar/previous arguments bit-identical, results passed through. shared_history: 2-3 stacks of the same wrapper types but other transforms over ONE shared inner robot object, asked the bit-identical joint vector and requested pose in the order A,B,(C,)A,.. on one thread, each judged by its own reference composition. with_shape: KinematicsWithShape is a base + tool stack with a collision filter on top: the same value clauses (forward, links, every answer maps back, continuation ordering at the outermost level) on synthetic cells whose obstacles sit on IK branches of the request. axes: LinearAxis / Gantry forward == base*translation*inner forward. non-trivial = stack has a rotation != identity; distinct = hash(robot, stack, q, method) Workload additions: exactly-identity / rotation-only / translation-only wrappers and tiny rotations; joints resting at exact zeros; kind shared_history = stacks of the same types but other transforms over ONE shared inner robot; kind with_shape = the value clauses through KinematicsWithShape with obstacles on IK branches of the request. Rounds 7-9: with_shape built by the library's own constructor incl. rotation-only transforms; yaw-only and far-away bases; J6 arguments of many turns; previous = generating vector plus 1e-7..3e-5 rad. Round 10: with_shape through both library constructors (new / with_safety) and with cells 20..80 m from the world origin.",
         assumptions: vec![
             "5-DOF variants are only judged on stacks whose tools/frames are axial (translation along and rotation about the flange z axis), as the statement presupposes",
             "forward/link tolerance 1e-11*(1+reach); inverse accuracy 1e-6 m / 1e-6 rad + 1e-9",
@@ -144,8 +144,32 @@ fn with_shape(idx: u64, rng: &mut Rng, mon: &mut Mon) {
         };
         if which == 0 { cell.base_tf = g } else { cell.tool_tf = g }
     }
-    // the robot is built by the library's own constructor (not assembled by the monitor)
+    // (one cell in six stands far from the world origin: hall coordinates of 20 .. 80 m)
+    if rng.usize(6) == 0 {
+        let d = col(&random_rotation(rng), 0);
+        let far = rng.range(20.0, 80.0);
+        cell.base_tf.p = [d[0] * far, d[1] * far, d[2] * far * 0.2];
+        mon.count("with_shape.far_from_origin");
+    }
+    // the robot is built by one of the library's own two constructors (not assembled by the monitor)
+    let plain_new = rng.usize(3) == 0;
+    if plain_new {
+        mon.count("with_shape.built_by_new");
+    }
     let build_lib = |cell: &Cell| -> rs_opw_kinematics::kinematics_with_shape::KinematicsWithShape {
+        if plain_new {
+            return rs_opw_kinematics::kinematics_with_shape::KinematicsWithShape::new(
+                to_params(&cell.robot.rp),
+                cell.constraints,
+                std::array::from_fn(|i| cell.links[i].to_trimesh()),
+                cell.base.as_ref().unwrap().to_trimesh(),
+                fr_to_iso(&cell.base_tf),
+                cell.tool.as_ref().unwrap().to_trimesh(),
+                fr_to_iso(&cell.tool_tf),
+                cell.env.iter().map(|(m, f)| rs_opw_kinematics::collisions::CollisionBody { mesh: m.to_trimesh(), pose: fr_to_iso(f).cast::<f32>() }).collect(),
+                cell.safety.mode == rs_opw_kinematics::collisions::CheckMode::FirstCollisionOnly,
+            );
+        }
         rs_opw_kinematics::kinematics_with_shape::KinematicsWithShape::with_safety(
             to_params(&cell.robot.rp),
             cell.constraints,
